@@ -30,6 +30,7 @@ type faultSpec struct {
 	Nth   int    `json:"nth"`
 	Count int    `json:"count"`
 	Mode  int    `json:"mode"`
+	Pos   int    `json:"pos,omitempty"` // flipped reads: which byte of the data returned
 	Name  string `json:"name"`
 }
 
@@ -167,7 +168,7 @@ func runFault(t *faultTask) *faultResult {
 		}
 		base := len(w.Stor.Ops)
 		for _, f := range t.Faults {
-			w.Stor.Rules = append(w.Stor.Rules, &vstor.Rule{Kind: vstor.Kind(f.Kind), Types: storage.FileType(f.Type), Nth: f.Nth, Count: f.Count, Mode: vstor.Mode(f.Mode)})
+			w.Stor.Rules = append(w.Stor.Rules, &vstor.Rule{Kind: vstor.Kind(f.Kind), Types: storage.FileType(f.Type), Nth: f.Nth, Count: f.Count, Mode: vstor.Mode(f.Mode), FlipPos: f.Pos})
 		}
 		phase = "history"
 		dead := false
@@ -349,22 +350,27 @@ func faultPlans(census map[string]int, quick bool) []faultSpec {
 		fmt.Sscanf(k, "%d/%d", &kind, &typ)
 		n := census[k]
 		for nth := 1; nth <= n; nth++ {
-			modes := [][2]int{{int(vstor.ModeFail), 1}, {int(vstor.ModeFail), 3}}
+			modes := [][3]int{{int(vstor.ModeFail), 1}, {int(vstor.ModeFail), 3}}
 			switch vstor.Kind(kind) {
 			case vstor.KWrite:
-				modes = append(modes, [2]int{int(vstor.ModePartial), 1}, [2]int{int(vstor.ModeAfter), 1})
+				modes = append(modes, [3]int{int(vstor.ModePartial), 1}, [3]int{int(vstor.ModeAfter), 1})
 			case vstor.KSync, vstor.KRemove, vstor.KSetMeta:
-				modes = append(modes, [2]int{int(vstor.ModeAfter), 1})
+				modes = append(modes, [3]int{int(vstor.ModeAfter), 1})
 			case vstor.KRead:
-				modes = append(modes, [2]int{int(vstor.ModeFlip), 1})
+				// a damaged byte in the middle, at the very end (the last value of a journal), just
+				// before it, and in the first quarter of what the read returned
+				modes = append(modes, [3]int{int(vstor.ModeFlip), 1, 0}, [3]int{int(vstor.ModeFlip), 1, 1}, [3]int{int(vstor.ModeFlip), 1, 2}, [3]int{int(vstor.ModeFlip), 1, 3})
 			}
 			if quick && nth > 6 && nth < n-2 && nth%3 != 0 {
 				// quick: the first six, the last three and every third position in between
 				continue
 			}
 			for _, m := range modes {
-				out = append(out, faultSpec{Kind: kind, Type: typ, Nth: nth, Count: m[1], Mode: m[0],
-					Name: fmt.Sprintf("%s/%s#%d x%d mode%d", vstor.Kind(kind), storage.FileType(typ), nth, m[1], m[0])})
+				name := fmt.Sprintf("%s/%s#%d x%d mode%d", vstor.Kind(kind), storage.FileType(typ), nth, m[1], m[0])
+				if m[2] != 0 {
+					name += fmt.Sprintf(" pos%d", m[2])
+				}
+				out = append(out, faultSpec{Kind: kind, Type: typ, Nth: nth, Count: m[1], Mode: m[0], Pos: m[2], Name: name})
 			}
 		}
 	}
